@@ -6,19 +6,14 @@
 //! single-threaded explorations can run side by side in one process.
 
 use std::cell::RefCell;
-use std::future::Future;
 use std::path::Path;
-use std::pin::Pin;
 use std::rc::Rc;
 
 /// Callback invoked at an instrumented persistence step: `(label, directory or file path)`.
 pub type CrashPointFn = dyn Fn(&str, &Path);
-/// Callback producing the future a task awaits at a scheduling point.
-pub type SchedPointFn = dyn Fn(&str) -> Pin<Box<dyn Future<Output = ()>>>;
-
 thread_local! {
     static CRASH_POINT: RefCell<Option<Rc<CrashPointFn>>> = const { RefCell::new(None) };
-    static SCHED_POINT: RefCell<Option<Rc<SchedPointFn>>> = const { RefCell::new(None) };
+    static SCHED_YIELDS: std::cell::Cell<u32> = const { std::cell::Cell::new(0) };
     static WAL_ROTATION_ENTRIES: RefCell<Option<u64>> = const { RefCell::new(None) };
     static TIMESTAMP_SECS: RefCell<Option<u64>> = const { RefCell::new(None) };
 }
@@ -36,16 +31,18 @@ pub fn crash_point(label: &str, path: &Path) {
     }
 }
 
-/// Install (or clear) the scheduling-point callback of the current thread.
-pub fn set_sched_point(cb: Option<Rc<SchedPointFn>>) {
-    SCHED_POINT.with(|c| *c.borrow_mut() = cb);
+/// Make every scheduling point of the current thread yield to the runtime `n` times (0 = inert).
+/// On a single-threaded runtime this lets other runnable tasks interleave between two critical
+/// sections of instrumented code, which is how lock-granularity interleavings are explored.
+pub fn set_sched_yields(n: u32) {
+    SCHED_YIELDS.with(|c| c.set(n));
 }
 
-/// Called by instrumented code between two critical sections; a no-op unless a scheduler is installed.
-pub async fn sched_point(label: &str) {
-    let cb = SCHED_POINT.with(|c| c.borrow().clone());
-    if let Some(cb) = cb {
-        cb(label).await;
+/// Called by instrumented code between two critical sections; inert unless yields are enabled.
+pub async fn sched_point(_label: &str) {
+    let n = SCHED_YIELDS.with(|c| c.get());
+    for _ in 0..n {
+        tokio::task::yield_now().await;
     }
 }
 
